@@ -83,7 +83,7 @@ PROPS = {
     "C09": _p("proof", "spike_test: interior points by the statement's magnitude formula (both methods, thresholds present/absent), end points, ValueError on unknown method"),
     "C10": _p("proof", "rate_of_change_test and speed_test against rate = |dx| / whole elapsed seconds and geodesic speed; great_circle_distance verified against its contract and used through it", [T_GEOD]),
     "C11": _p("proof", "flat_line_test with its closures: window of floor(threshold/D)+1 points ending at k, range of present values < tolerance; min/max reductions as ground objects with cross-instantiated bounds", [T_STAT]),
-    "C12": _p("proof", "attenuated_signal_test: dispatch, min_periods arithmetic, flag table and the arguments handed to the statistic; the statistics themselves are uninterpreted (proof relative to the rolling contract)", [T_ROLL, T_STAT], bounded=["pandas rolling NaN rule: compared with pandas on the conformance grid (bounded)"]),
+    "C12": _p("proof", "attenuated_signal_test: dispatch, min_periods arithmetic, flag table and the arguments handed to the statistic; the statistics themselves are uninterpreted (proof relative to the rolling contract)", [T_ROLL, T_STAT], bounded=["pandas rolling NaN rule: compared with pandas on the conformance grid (bounded)", "AttenuatedSubsecond: 3 time axes that are not whole seconds (400 ms, irregular, bursts) x 3 series x 4 window lengths x std / range x 2 threshold pairs on the real function against the trailing-window definition (the deductive cases require whole-second stamps)"]),
     "C13": _p("proof", "density_inversion_test pair flagging in both cast directions incl. any()-guards, pressure_increasing_test relative to the sign of the (uninterpreted) mean step", [T_STAT]),
     "C14": _p("proof", "location_test: bounding box, one-sided missing, hop distance through the great_circle_distance contract, shape and bbox validation", [T_GEOD], bounded=["LocationShapes: 12 pairs of 1-D / 2-D / 3-D shapes (equal and different element counts) x range_max given or not on the real function (the deductive cases are about 1-D series)"]),
 }
